@@ -95,6 +95,8 @@ def gen_case(rng, big=False):
         rpth = [] if rng.random() < 0.5 else [rng.choice(ids) for _ in range(rng.randint(1, 2))]
         reqs.append({'id': r + 1, 'pre_blocked': rng.random() < 0.06, 'bw': bw, 'sp': spacing, 'br': bit_rate,
                      'N': N, 'M': M, 'pth': pth, 'rpth': rpth})
+        if reqs[-1]['pre_blocked']:
+            reqs[-1]['pre_reason'] = rng.choice(PRE_REASONS)
     return {'policy': 'last_fit' if rng.random() < 0.12 else 'first_fit', 'gb': gb, 'oms': oms, 'requests': reqs}
 
 
@@ -151,6 +153,12 @@ def make_world(case):
 
 # ---- network level: real designed network, real build_oms_list, real path elements
 _EQ = None
+
+
+# every reason for which a request can reach spectrum assignment already blocked (gnpy.topology.request BLOCKING_*):
+# some leave the request without a path, others (no feasible mode) with a path and a valid bandwidth
+PRE_REASONS = ['NO_PATH', 'NO_PATH_WITH_CONSTRAINT', 'NO_FEASIBLE_BAUDRATE_WITH_SPACING', 'NO_COMPUTED_SNR',
+               'NO_FEASIBLE_MODE', 'MODE_NOT_FEASIBLE', 'NO_SPECTRUM', 'NOT_ENOUGH_RESERVED_SPECTRUM']
 
 
 def equipment():
@@ -223,6 +231,8 @@ def gen_network_case(rng):
         case['requests'].append({'id': r + 1, 'pre_blocked': rng.random() < 0.05, 'bw': bit_rate * nb, 'sp': spacing,
                                  'br': bit_rate, 'N': N, 'M': M, 'path_uids': [e.uid for e in pth],
                                  'bidir': rng.random() < 0.7, 'pth': [], 'rpth': []})
+        if case['requests'][-1]['pre_blocked']:
+            case['requests'][-1]['pre_reason'] = rng.choice(PRE_REASONS)
     return case
 
 
@@ -275,7 +285,8 @@ def drive(case):
             rq = NS(request_id=f"r{r['id']}", path_bandwidth=r['bw'], spacing=r['sp'], bit_rate=r['br'],
                     N=list(r['N']), M=list(r['M']))
             if r['pre_blocked']:
-                rq.blocking_reason = 'NO_PATH'
+                # blocked upstream for any of gnpy's reasons; the path (and a valid bandwidth) may be there all the same
+                rq.blocking_reason = r.get('pre_reason', 'NO_PATH')
             before = raw(oms_list)
             captured.clear()
             rec = {'rq': r, 'before': before}
@@ -455,7 +466,11 @@ def gen_planning_case(rng):
                          'effective-freq-slot': slots, 'spacing': spacing,
                          'max-nb-of-channel': None, 'output-power': None,
                          'path_bandwidth': bw}}})
-    return {'kind': 'planning', 'policy': 'first_fit', 'gb': 4, 'topology': topo, 'json_requests': reqs, 'requests': []}
+    # some libraries ask for large system margins: modes stop being feasible on the longer routes, so requests reach
+    # the spectrum assignment blocked (MODE_NOT_FEASIBLE / NO_FEASIBLE_MODE) yet with a computed path
+    margins = rng.choice([None, None, None, round(rng.uniform(2, 16), 1)])
+    return {'kind': 'planning', 'policy': 'first_fit', 'gb': 4, 'topology': topo, 'json_requests': reqs, 'requests': [],
+            'sys_margins': margins}
 
 
 def drive_planning(case):
@@ -468,6 +483,9 @@ def drive_planning(case):
     from gnpy.core.elements import Roadm, Transceiver
     from gnpy.core.exceptions import ServiceError, DisjunctionError
     eq = equipment()
+    if case.get('sys_margins') is not None:
+        eq = _copy.deepcopy(eq)
+        eq['SI']['default'].sys_margins = case['sys_margins']
     net = network_from_json(_copy.deepcopy(case['topology']), eq)
     net, _, _ = designed_network(eq, net)
     steps, box = [], {}
